@@ -104,6 +104,10 @@ def stepSt (st : St) (w : List String) : St × String :=
   | ["oa_default", i] => match slot i NW with | some i => runOp st (.oaDefault i) | none => bad
   | ["fa_default", i] => match slot i NW with | some i => runOp st (.faDefault i) | none => bad
   | ["fav_default", i] => match slot i NW with | some i => runOp st (.favDefault i) | none => bad
+  | ["oa_reset_throw", i, src] =>   -- failed attempts are no-ops; the last one is the assignment from the range
+    match slot i NW, parseSrc src with
+    | some i, some src => runOp st (.oaSet i src false)
+    | _, _ => bad
   | [opn, i, src, _via] =>
     match slot i NW, parseSrc src with
     | some i, some src =>
